@@ -18,6 +18,12 @@ CHECKS = {
         "note": "A hang inside the linter has no logical step counter and would be reported as inconclusive (wall-clock watchdog); stack depth is judged with the 8 MiB main-thread stack of the shipped binary.",
         "design": "DESIGN.md section 2 C07",
     },
+    "C08": {
+        "technique": "runtime monitoring: crash monitor (caught panic + site, worker death) around the real instruction generator and VM on type-directed generated programs over the whole repertoire, with hostile stdin and file histories",
+        "text": "Accepted programs from a type-directed generator over every statement kind and built-in (wild argument values, files on a scratch directory, random stdin bytes incl. invalid UTF-8, LPRINT also against the shipped device), core-grammar programs and every accepted program embedded in the repository (as is and with literal mutations) are compiled and run by the real code; the outcome must be normal termination or a run-time error with code and position. Any panic, process death or code-less error is a violation.",
+        "note": "INKEY$ is excluded (polls the real terminal); an exhausted instruction budget is inconclusive; screen statements run against the harness's null screen.",
+        "design": "DESIGN.md section 2 C08",
+    },
     "C17": {
         "technique": "runtime monitoring: real interpreter run on bounded-exhaustive and random string-function calls, outputs judged online by an executable reference model (Python string operations)",
         "text": "Every enumerated instance of the defining equations is executed by the real pipeline (parse, lint, generate, VM) and compared with the model; exhaustive over the alphabet {a,B,space} up to length 3 (quick) / 5 (thorough) with counts -1..7, all 65536 INTEGER values for VAL(STR$(k)) in the thorough tier, plus random printable-ASCII strings. Held means: held on the executions listed in the evidence.",
